@@ -200,20 +200,12 @@ def oracle_ns(path: str, doc: List[Dict[str, Any]], py: List[Dict[str, Any]], in
             continue
         got = de['k'] if de['k'] not in ('VARIABLE', 'CLASS_VARIABLE', 'INSTANCE_VARIABLE', 'CONSTANT') else 'variable'
         if got != want:
-            cls = None
-            if de['k'] == 'INSTANCE_VARIABLE' and want == 'PROPERTY':
-                cls = 'property-assigned-through-self-documented-as-instance-variable'
-            if de['k'] == 'CLASS' and want == 'EXCEPTION' and pe.get('exc_roots') and set(pe['exc_roots']) <= NEW_EXC:
-                cls = 'exception-group-and-encodingwarning-not-in-exception-table'
-            rec('kind', n, de['k'], want, cls)
+            rec('kind', n, de['k'], want)
             continue
         if pe['t'] == 'F' and de['t'] == 'F' and de['async'] != pe['async']:
             rec('async', n, de['async'], pe['async'])
         if pe['t'] in ('F', 'C') and de['doc'] != pe['doc']:
-            cls = None
-            if de['k'] == 'PROPERTY' and de['doc'] in ctx['strings']:
-                cls = 'string-statement-after-property-replaces-its-docstring'
-            rec('docstring', n, de['doc'], pe['doc'], cls)
+            rec('docstring', n, de['doc'], pe['doc'])
         if pe['t'] == 'D' and de['t'] == 'A' and de['ann'] is not None and n not in ctx['annotated'] \
                 and de['k'] != 'INSTANCE_VARIABLE' and not ann_matches(de['ann'], pe['ty']):
             rec('type', n, de['ann'], pe['ty'], 'inferred-type-stale-after-tuple-unpacking' if n in ctx['tuple_targets'] else None)
@@ -341,19 +333,6 @@ def exhaustive(maxlen: int) -> List[Dict[str, Any]]:
         for combo in itertools.product(M, repeat=L):
             progs.append(PRELUDE + [s for t in combo for s in t])
         for combo in itertools.product(range(len(C)), repeat=L):
-            # `x = staticmethod(x)` on a function that is already a static/class method trips an assert in
-            # _handleOldSchoolMethodDecoration (a crash is C01's subject, and it would lose the whole package here)
-            wrapped, bad = False, False
-            for k in combo:
-                if k in (4, 5):
-                    bad = bad or wrapped
-                    wrapped = True
-                elif k in (1, 2, 14):
-                    wrapped = True
-                elif k in (0, 3, 10, 13):
-                    wrapped = False
-            if bad:
-                continue
             combo = [C[k] for k in combo]
             progs.append(PRELUDE + [[1, 'C0', [], [s for t in combo for s in t]]])
     pk = []
@@ -449,8 +428,9 @@ class Check(PropertyCheck):
                  'EXCEPTION iff subclass of BaseException for module-level classes (C03_kinds_agree_partial, C03_docstring_partial, '
                  'C03_module_docstring); attribute docstrings follow currentAttr (C03_docstring_attribute, _not_after_def/_class/_augassign); '
                  '_annotation_for_value is sound for every literal value (C03_infer_type_sound, _empty_bare, _bool_not_int). Refuted on the '
-                 'unchanged tree, with witnesses and known-finding entries: class variable shadowing an inherited method, string after a '
-                 'property, property assigned through self, ExceptionGroup/EncodingWarning bases, stale type after tuple unpacking. Tie: '
+                 'current tree, with witnesses and known-finding entries: class variable shadowing an inherited method, stale type after '
+                 'tuple unpacking; repaired in /repo and now proved (old witnesses kept as _old_refuted): string after a property (fbfbc45), '
+                 'property assigned through self (76cecbe), ExceptionGroup/BaseExceptionGroup/EncodingWarning bases (7fd5e3f). Tie: '
                  'doc_walk vs the real builder on every sequence of <= 2 (quick) / 3 (thorough) statement templates and on random packages; '
                  'oracle = pydoctor build vs CPython import of the same generated packages.'),
         'note': ('Partial: bindings in else/except/finally suites and untaken ifs, aliases `x = y`, annotations without value, rebinding a '
